@@ -314,6 +314,41 @@ class Deps:
         return acc
 
 
+def exclusive_by_value_sites(P, D, ty):
+    """True iff the by-value consumers of `ty` are exactly two, each running at most once, and they
+    sit on mutually exclusive control-flow paths in the one situation the model understands:
+    one is the error handler of a fallible PRE-processing middleware p (it runs only if p fails, and
+    then nothing after p inside p's wrapping scope runs), the other is a component that is skipped
+    when p fails: a later pre-processor of the same scope, the next wrapping middleware, anything
+    deeper, or the request handler — but not a post-processor of p's scope or of an outer scope
+    (those still run on the error response)."""
+    sites = [(cid, kind, mode, m) for (cid, kind, mode, m) in D.consumers(ty) if mode == "v"]
+    if len(sites) != 2 or any(m != 1 for (_, _, _, m) in sites):
+        return False
+    eh_sites = [s for s in sites if s[1] == "eh"]
+    if len(eh_sites) != 1:
+        return False
+    eh = eh_sites[0][0]
+    other = [s for s in sites if s[1] != "eh"][0][0]
+    owners = [c for c, h in D.eh_of.items() if h == eh]
+    if len(owners) != 1:
+        return False
+    owner = owners[0]
+    # locate the failing pre and the other consumer in the pipeline
+    for si, sc in enumerate(P.scopes):
+        ids = [o["c"] for o in sc["pres"]]
+        if owner in ids:
+            later_pres = ids[ids.index(owner) + 1:]
+            skipped = set(later_pres)
+            for sc2 in P.scopes[si + 1:]:
+                if sc2["wrap"] is not None:
+                    skipped.add(sc2["wrap"]["c"])
+                skipped.update(o["c"] for o in sc2["pres"] + sc2["posts"])
+            skipped.add(P.handler_op["c"])
+            return other in skipped and ids.count(owner) == 1
+    return False
+
+
 def classify_pipeline(an, P):
     """-> (verdict, reason). verdict in must_accept / must_reject / unspecified (Appendix of C02/C08)."""
     D = Deps(an, P)
@@ -373,6 +408,8 @@ def classify_pipeline(an, P):
                 pass
             elif n_v == 0 or (n_v == 1 and n_r == 0 and n_m == 0):
                 pass
+            elif n_r == 0 and n_m == 0 and exclusive_by_value_sites(P, D, ty):
+                pass  # moved into exactly one consumer on every control-flow path
             else:
                 unspecified.append("non_trivial_ownership")
     # observers cannot depend (transitively) on fallible constructors
